@@ -79,6 +79,9 @@ static void gen_kmeans(Draw &d, Case &c) {
   M A = gen_points(d, n, p);
   // clustered structure in half of the cases
   if (d.coin(50)) { int g = (int)d.i(2, 4); auto off = d.ivec((size_t)g * p, -3000, 3000); for (int i = 0; i < n; i++) for (int j = 0; j < p; j++) A(i, j) = (double)(A(i, j) / 16 + (ld)off[(size_t)(i % g) * p + j]); }
+  // one object AT the origin in a sixth of the cases (translation keeps general position): start centroids can then coincide with
+  // the zero-initialised "previous centroids" of the first convergence test
+  if (d.coin(16)) { int o = (int)d.i(0, n - 1); V row(p); for (int j = 0; j < p; j++) row[j] = A(o, j); for (int i = 0; i < n; i++) for (int j = 0; j < p; j++) A(i, j) = (double)(A(i, j) - row[j]); c.tags.push_back("object-at-origin"); }
   put(c, A);
   c.nontrivial = k >= 3 && th >= 2;
   c.tags.push_back(fmt("initializer=%d", init)); c.tags.push_back(fmt("k=%d", k)); c.tags.push_back(fmt("threads=%d", th));
